@@ -22,7 +22,7 @@
    reasoned about on R (instance LROps below).  Tied to the code by
    correspondence (py/props/c19.py). *)
 From Coq Require Import ZArith Bool List String.
-From V Require Import Base.FieldSig.
+From V Require Import Base.FieldSig Base.Arr.
 Import ListNotations.
 Local Open Scope Z_scope.
 
@@ -92,6 +92,13 @@ Fixpoint scatter {A} (fi : list bool) (r : list A) : list (option A) :=
 Definition count_true (fi : list bool) : nat := List.length (filter (fun b => b) fi).
 
 Inductive xerr := EValueError | ETypeError.
+
+Fixpoint set_nth {A} (n : nat) (f : A -> A) (l : list A) : list A :=
+  match l, n with
+  | [], _ => []
+  | x :: t, 0%nat => f x :: t
+  | x :: t, Datatypes.S m => x :: set_nth m f t
+  end.
 
 (* ================================================================= model == *)
 Section Layered.
@@ -270,6 +277,30 @@ Section Layered.
     else c.
   (* UNFIXED variant (before the repair): rec.center, the flag ignored *)
   Definition rec_abs_unfixed (srcc : pt3) (r : rcv) : pt3 := snd r.
+
+  (* ---- histories on ONE Model object -------------------------------------- *)
+  (* In-place writes into the property arrays (model.property_x[i, j, k] = v
+     through the array the getter returns; the setters do the same to every
+     cell) interleaved with extract_1d requests.  The state is the arrays and
+     nothing else: Model keeps no record of earlier extractions. *)
+  Inductive hop : Type :=
+  | HEdit (p : nat) (i j k : Z) (v : F)     (* <property number p>[i, j, k] = v *)
+  | HExtract.                               (* extract_1d(...) with the selection [ex] *)
+  Definition edit_props (props : list (Z -> Z -> Z -> F)) (o : hop) : list (Z -> Z -> Z -> F) :=
+    match o with
+    | HEdit p i j k v => set_nth p (fun a => upd3 a i j k v) props
+    | HExtract => props
+    end.
+  (* the answers of the extract_1d requests of a history, in order;
+     [ex props] = extract_1d of a fixed selection on the arrays [props] *)
+  Fixpoint run_hist (ex : list (Z -> Z -> Z -> F) -> xerr + ext)
+           (props : list (Z -> Z -> Z -> F)) (ops : list hop) : list (xerr + ext) :=
+    match ops with
+    | [] => []
+    | HExtract :: t => ex props :: run_hist ex props t
+    | o :: t => run_hist ex (edit_props props o) t
+    end.
+  Definition is_extract (o : hop) : bool := match o with HExtract => true | _ => false end.
 
   (* ---- _get_points(method, src, rec) -------------------------------------- *)
   Definition get_points (method : string) (src rec : F * F) : string * (F * F) * (F * F) :=
